@@ -185,6 +185,17 @@ def _observe_overlay(case):
             for i in run.get("head_ids", []):
                 if i not in known:
                     canon["texts"][str(i)] = it.text[i][:200]
+        # history: the trace with counters written by the same object after the overlays still starts with the
+        # unchanged source events (the overlay's critical markers must not leak into later files)
+        try:
+            ta.generate_trace_with_counters(ranks=[p["rank"]])
+            outc = files[p["rank"]].replace(".json", "_with_counters.json")
+            if os.path.exists(outc):
+                cdoc, _ = _read_any(outc)
+                canon["counters_after_overlay"] = [it(e) for e in cdoc["traceEvents"][: len(src)]] == canon["src_ids"]
+                os.remove(outc)
+        except Exception as e:  # noqa: BLE001
+            canon["counters_after_overlay_raises"] = C.exc_name(e) + ": " + str(e)[:80]
         # the source file itself must be untouched
         again, _ = _read_any(files[p["rank"]])
         canon["source_untouched"] = again == src_doc
@@ -395,6 +406,8 @@ def oracle(case, obs) -> List[str]:
     if c["mode"] == "overlay":
         if not c["source_untouched"]:
             out.append("the source trace file was modified")
+        if c.get("counters_after_overlay") is False:
+            out.append("the trace with counters written after the overlays does not start with the unchanged source events")
         if c["crit_events"] != c["path_events"]:
             out.append("critical event set differs from the events of the path's nodes")
         n = len(c["src_ids"])
